@@ -144,6 +144,16 @@ def cases(tier, seed, shard, nshards):
                 if idx % nshards == shard:
                     yield {"text": base, "pre": pre, "stack": [[name, kw]], "fmt": None}
                 idx += 1
+    # HOW MANY blocks the library holds (seed C07-m: from 5000 blocks on the blocks were handed to worker threads before the copy was
+    # taken): block counts on both sides of 2^8, 2^10, 2^12, 5000, 2^13 (thorough: 10^4, 2^14, 2^15) x copy-mode middlewares / writer
+    def big(n):
+        return "".join("@article{k%d, title = {T%d}, month = %s, author = {Doe, J. and Roe, K.}}\n%% c%d\n" % (j, j, ["jan", "{3}", "12"][j % 3], j) if j % 2 == 0
+                       else "@string{s%d = {v}}\n" % j for j in range(n * 2 // 3 + 1))
+    for n in ((255, 257, 1023, 1025, 4095, 4097, 4999, 5001, 8193) if tier == "quick" else (255, 257, 1023, 1025, 4095, 4097, 4999, 5000, 5001, 8191, 8193, 10001, 16385, 32769)):
+        for name in ("AddEnclosingMiddleware", "SortFieldsAlphabeticallyMiddleware", "MonthIntMiddleware", "SeparateCoAuthors", "SortBlocksByTypeAndKeyMiddleware", "ResolveStringReferencesMiddleware"):
+            if idx % nshards == shard:
+                yield {"text": big(n), "pre": "default", "stack": [[name, OPTS.get(name, [dict()])[0]]], "fmt": None, "big": n}
+            idx += 1
     r = rng_for(seed, shard, "c07")
     for i in range(tier_pick(tier, 8000, 600000) // nshards):
         mode = i % 4
